@@ -152,3 +152,102 @@ EXPLANATION += (" Row-loop isolation (E2-isolation): in the `for i in 0..rows(x)
                 "at row i only: a buffer hoisted out of the loop and only partly reset makes the output for a row depend on the rows "
                 "processed before it.")
 TECHNIQUE += "; loop-carried-state (iteration isolation) rule on the row loops"
+
+
+# ------------------------------------------------------------------ border points first seen as noise are picked up later
+_run_pre_border = run
+_REL = {"==": lambda a, b: a == b, "!=": lambda a, b: a != b, "<": lambda a, b: a < b, "<=": lambda a, b: a <= b,
+        ">": lambda a, b: a > b, ">=": lambda a, b: a >= b}
+
+
+def border_relabel(ck, prog):
+    """A point visited before any of its core neighbours is provisionally marked as noise. When the expansion later reaches a
+    core point q that has it in its neighbourhood, it must be enqueued or relabelled - otherwise a border point stays noise.
+    Decided by constant-propagated reachability: with the examined label equal to the noise marker, a push onto the work
+    queue or a store of a cluster id into the label vector is reachable inside the loop over q's neighbours."""
+    from sa.match import dim_of
+    rule, inst = "E1-gate", "expansion picks up neighbours currently marked as noise"
+    try:
+        b = prog.one(FIT)
+    except AnchorError as e:
+        ck.violation(rule, inst, FIT, "", expected="anchor exists", found=f"anchor vanished: {e}")
+        return
+    cx = BodyCtx.of(b)
+    res = cx.res
+    be = guards.back_edges(b)
+    # the label vector: what the model stores as cluster_labels
+    ylocal = None
+    for i, j, s in b.stmts():
+        r = s["r"] if s["k"] == "assign" else None
+        if r and r["k"] == "agg" and r.get("name", "").endswith("dbscan::DBSCAN") and "cluster_labels" in r["fields"]:
+            o = r["ops"][r["fields"].index("cluster_labels")]
+            if o["k"] in ("move", "copy") and not o["p"]["pr"]:
+                ylocal = o["p"]["l"]
+                for _ in range(6):                                  # temporaries moved into the constructor
+                    ds = [d for d in b.defs.get(ylocal, []) if d.kind == "assign"]
+                    if len(b.defs.get(ylocal, [])) == 1 and ds and ds[0].data["r"]["k"] == "use" and \
+                            ds[0].data["r"]["o"]["k"] in ("move", "copy") and not ds[0].data["r"]["o"]["p"]["pr"]:
+                        ylocal = ds[0].data["r"]["o"]["p"]["l"]
+                    else:
+                        break
+    fr = sorted(guards.call_blocks(b, IS_FRF), key=lambda bb: len(b.dom[bb]))
+    if ylocal is None or len(fr) < 2:
+        ck.note(f"{inst}: label vector / second radius query not found in DBSCAN::fit (different algorithm shape): no instance")
+        return
+    fr2 = fr[-1]
+    stores = []
+    for d in b.defs.get(ylocal, []):
+        if d.kind == "store":
+            stores.append((d.bb, res.rvalue(d.data["r"], 0, ())))
+    # noise marker: the constant stored on the non-core side of the seed point's density test
+    marker = None
+    ms = Field(2, "min_samples")
+    for c in cx.cmps:
+        for (L, R, lhs_subj) in ((c.lhs, c.rhs, True), (c.rhs, c.lhs, False)):
+            dl = dim_of(L)
+            if not (dl and dl[0] == "len" and contains(dl[1], IS_FR) and ms(R)) or b.dominates(fr2, c.bb):
+                continue
+            rel = c.rel if lhs_subj else guards.FLIP[c.rel]
+            for edge_rel, dst, other in ((rel, c.true_bb, c.false_bb), (guards.NEG[rel], c.false_bb, c.true_bb)):
+                if guards.ATOMS[edge_rel] <= frozenset("n"):            # |N| < min_samples
+                    here = b.reachable_from([dst], cut_edges=be)
+                    there = b.reachable_from([other], cut_edges=be)
+                    for (sb, v) in stores:
+                        if sb in here and sb not in there and v[0] == "int":
+                            marker = v[1]
+    if marker is None:
+        ck.note(f"{inst}: no constant noise marker stored on the |N| < min_samples side: no instance")
+        return
+    ycmps = [c for c in cx.cmps if b.dominates(fr2, c.bb) and c.bb != fr2 and c.rhs[0] == "int" and c.lhs[0] == "idx"]
+    groups = {}
+    for c in ycmps:
+        groups.setdefault(render(c.lhs), []).append(c)
+    if not groups:
+        ck.note(f"{inst}: no label tests behind the second radius query: no instance")
+        return
+    grp = max(groups.values(), key=len)
+    start = min(grp, key=lambda c: len(b.dom[c.bb])).bb
+    cut = set(be)
+    for c in grp:
+        if _REL[c.rel](marker, c.rhs[1]):
+            cut.add((c.bb, c.false_bb))
+        else:
+            cut.add((c.bb, c.true_bb))
+    reach = b.reachable_from([start], cut_edges=frozenset(cut))
+    sinks = {bb for bb in guards.call_blocks(b, IS_PUSH) if b.dominates(fr2, bb)}
+    sinks |= {sb for (sb, v) in stores if b.dominates(fr2, sb) and v[0] != "int"}
+    where = b.where(start)
+    if reach & sinks:
+        ck.ok(rule, inst, b.path, where, f"noise marker {marker}; with label == {marker} the queue push / relabel at "
+              f"{sorted(b.where(s) for s in reach & sinks)[:2]} is reachable ({len(grp)} label tests evaluated)")
+    else:
+        ck.violation(rule, inst, b.path, where,
+                     expected=f"with the neighbour's label equal to the noise marker ({marker}) a push onto the work queue or a store of the "
+                              f"cluster id is reachable",
+                     found=f"under label == {marker} the tests {[c.where for c in grp]} lead to neither: a border point that was visited before "
+                           f"its core neighbour keeps the noise label")
+
+
+def run(ck, prog):
+    _run_pre_border(ck, prog)
+    border_relabel(ck, prog)
